@@ -50,8 +50,9 @@ Maps(F, A) ==
 
 \* the identity overlay: F is laid over an earlier, still complete instance k0 of the same fragment
 Overlay(f, A) ==
-  {[j \in DOMAIN Frag(f).q |-> Key(FragA(f, k0).atoms[j])] :
-      k0 \in {k0 \in 0..step : \A j \in DOMAIN Frag(f).q : Key(FragA(f, k0).atoms[j]) \in Keys(A)}}
+  LET g == OverlayBase(f)
+  IN {[j \in DOMAIN Frag(f).q |-> Key(FragA(g, k0).atoms[j])] :
+        k0 \in {k0 \in 0..step : \A j \in DOMAIN Frag(g).q : Key(FragA(g, k0).atoms[j]) \in Keys(A)}}
 
 DoExtend(f, m, mode) ==
   LET k == step + 1
@@ -123,6 +124,13 @@ Subset ==
     /\ hist' = Append(hist, [op |-> "Subset", ixs |-> ixs])
     /\ UNCHANGED <<flav, held>>
 
+Copy ==
+    /\ Len(obj.atoms) >= 1
+    /\ obj' = obj
+    /\ last' = [op |-> "Copy", pre |-> obj]
+    /\ hist' = Append(hist, [op |-> "Copy"])
+    /\ UNCHANGED <<flav, held>>
+
 Tick == step < MaxDepth /\ step' = step + 1
 AExtend == Tick /\ Extend
 AExtendTypes == Tick /\ ExtendTypes
@@ -131,7 +139,8 @@ ADelete == Tick /\ Delete
 APop == Tick /\ Pop
 AReplicate == Tick /\ Replicate
 ASubset == Tick /\ Subset
-Next == AExtend \/ AExtendTypes \/ AExtendShifted \/ ADelete \/ APop \/ AReplicate \/ ASubset
+ACopy == Tick /\ Copy
+Next == AExtend \/ AExtendTypes \/ AExtendShifted \/ ADelete \/ APop \/ AReplicate \/ ASubset \/ ACopy
 
 Spec == Init /\ [][Next]_vars
 
@@ -198,6 +207,7 @@ ReplicateExact ==
 
 ---------------------------------------------------------------------------
 DimsQuick == {<<1,1,1>>, <<2,1,1>>, <<1,1,2>>}
+DimsMid == {<<1,1,1>>, <<2,1,1>>, <<1,1,2>>, <<1,2,1>>, <<2,1,3>>}
 DimsThorough == {<<1,1,1>>, <<2,1,1>>, <<1,2,1>>, <<1,1,2>>, <<2,1,3>>, <<1,3,2>>, <<2,2,1>>}
 
 (* Emission: one JSON line per distinct state; the harness replays it.     *)
